@@ -159,7 +159,9 @@ func vpC34GenEnc(t *rapid.T, maxLen int) *vpC34Enc {
 	case 2: // around hex-digit and buffer boundaries
 		for left := n; left > 0; {
 			c := rapid.SampledFrom([]int{1, 9, 10, 15, 16, 17, 255, 256, 257, 4095, 4096, 4097}).Draw(t, "csz")
-			c = min(c, left)
+			if c = min(c, left); len(e.chunks) >= 150 {
+				c = left // keep the number of draws per case bounded
+			}
 			e.chunks = append(e.chunks, c)
 			left -= c
 		}
@@ -167,6 +169,9 @@ func vpC34GenEnc(t *rapid.T, maxLen int) *vpC34Enc {
 		hi := rapid.SampledFrom([]int{4, 64, 1000, 9000}).Draw(t, "chunkHi")
 		for left := n; left > 0; {
 			c := min(rapid.IntRange(1, hi).Draw(t, "csz"), left)
+			if len(e.chunks) >= 150 {
+				c = left
+			}
 			e.chunks = append(e.chunks, c)
 			left -= c
 		}
@@ -272,8 +277,13 @@ func vpC34GenConsumer(t *rapid.T) []int {
 func vpC34Drain(r io.Reader, cons []int) ([]byte, error) {
 	var out []byte
 	idle := 0
+	mx := 0
+	for _, c := range cons {
+		mx = max(mx, c)
+	}
+	scratch := make([]byte, mx)
 	for i := 0; ; i++ {
-		buf := make([]byte, cons[i%len(cons)])
+		buf := scratch[:cons[i%len(cons)]]
 		n, err := r.Read(buf)
 		out = append(out, buf[:n]...)
 		if err != nil {
